@@ -72,6 +72,16 @@ def check(case):
     for k, v in want.items():
         if getattr(acc, k) != v and abs(getattr(acc, k) - v) > 1e-12:
             return f"{k} is {getattr(acc, k)}, counting definition gives {v}"
+    # the same pairs handed over frame by frame (nested lists, as the scene evaluation does) and scored twice: same counts, lists untouched
+    for nested in ([res[:1], res[1:]], [[], res[:2], [], res[2:]]):
+        before = [list(x) for x in nested]
+        for rnd_ in (1, 2):
+            a2 = ClassificationAccuracy(nested, len(gt), [])
+            if (a2.objects_results_num, a2.num_tp, a2.num_fp) != (len(res), acc.num_tp, acc.num_fp):
+                return (f"evaluation {rnd_} of the per-frame lists counts {a2.objects_results_num} pairs (TP {a2.num_tp}, FP {a2.num_fp}); "
+                        f"the same {len(res)} pairs as one list give TP {acc.num_tp}, FP {acc.num_fp}")
+            if len(nested) != len(before) or any(len(x) != len(y) or any(p is not q for p, q in zip(x, y)) for x, y in zip(nested, before)):
+                return "ClassificationAccuracy changed the per-frame lists it was given"
     if not case["tl"]:
         for e in est:
             for g in gt:
